@@ -97,7 +97,8 @@ def _cells():
       argclass="inconsistent shape pair")
     B("real_contract:shape2", "utils.real_contract", [{"gen": "real", "m": 8, "n": 12, "seed": 3}, 2, 2],
       argclass="inconsistent shape pair")
-    for nm, M in (("tall", TALL), ("wide", WIDE), ("row", ROW)):
+    for nm, M in (("tall", TALL), ("wide", WIDE), ("row", ROW), ("2x1", G(2, 1, 41)), ("1x2", G(1, 2, 42)),
+                  ("3x2", G(3, 2, 43)), ("2x3", G(2, 3, 44))):
         B(f"ishermitian:{nm}", "utils.ishermitian", [M], argclass="non-square")
         B(f"det_dieudonne:{nm}", "utils.det", [M, "Dieudonne"], argclass="non-square")
         B(f"det_moore:{nm}", "utils.det", [M, "Moore"], argclass="non-square")
@@ -152,7 +153,17 @@ def _cells():
         "symmetric_not_conj": {"gen": "add", "a": HERM,
                                "b": {"gen": "add", "a": ent(0, 1, [0, 0.5, 0, 0]), "b": ent(1, 0, [0, 0.5, 0, 0])}},
     }
+    # the same classes instantiated at the smallest sizes (shortcuts for n = 1, 2 come first in many routines)
+    nonherm["1x1_nonreal"] = {"gen": "entry", "m": 1, "n": 1, "i": 0, "j": 0, "q": [1.0, 0.5, -0.25, 2.0]}
+    nonherm["1x1_pure_i"] = {"gen": "entry", "m": 1, "n": 1, "i": 0, "j": 0, "q": [0.0, 1.0, 0.0, 0.0]}
+    nonherm["2x2_generic"] = G(2, 2, 31)
+    nonherm["2x2_imag_diag"] = {"gen": "add", "a": HERM2, "b": {"gen": "entry", "m": 2, "n": 2, "i": 1, "j": 1, "q": [0, 0, 0.5, 0]}}
     for nm, M in nonherm.items():
+        if nm.startswith("1x1"):
+            B(f"det_moore:nonherm_{nm}", "utils.det", [M, "Moore"], argclass="non-Hermitian by a margin")
+            for fn in ("quaternion_eigendecomposition", "quaternion_eigenvalues", "quaternion_eigenvectors"):
+                B(f"{fn}:nonherm_{nm}", f"decomp.{fn}", [M], argclass="non-Hermitian by a margin")
+            continue
         B(f"det_moore:nonherm_{nm}", "utils.det", [M, "Moore"], argclass="non-Hermitian by a margin")
         B(f"eigendecomposition:nonherm_{nm}", "decomp.quaternion_eigendecomposition", [M], argclass="non-Hermitian by a margin")
         B(f"eigenvalues:nonherm_{nm}", "decomp.quaternion_eigenvalues", [M], argclass="non-Hermitian by a margin")
